@@ -853,10 +853,10 @@ where
 fn main() {
     let ctx = Ctx::from_args("C20");
     ctx.level("model_checking");
-    ctx.rule("E1 entry-point table: every binary operator (owned and borrowed), solver entry and checked accessor of Vector, Matrix, Banded, Tridiagonal, Sparse, Mesh1D/2D and Polynomial x ALL pairs of sizes/shapes up to 6 (matrices up to 3x3 quick / 4x4 thorough; accessors with every argument up to size+2): the call must panic iff the pair is a mismatch / the argument out of range; after a refusal every operand equals its snapshot (nothing written before the check); by-reference and &self operations leave operands unchanged; owned and borrowed forms return identical results. E2: BFS over interleavings of mutations on a value and its clone (and re-cloning either way) for Vector, Matrix, Banded, Tridiagonal, Polynomial, with independent models. Non-trivial: mismatched pairs, out-of-range arguments. The raw (i,j) index operators of Matrix, Banded and Mesh2D are excluded as the property states.");
+    ctx.rule("E1 entry-point table: every binary operator (owned and borrowed), solver entry and checked accessor of Vector, Matrix, Banded, Tridiagonal, Sparse, Mesh1D/2D and Polynomial x ALL pairs of sizes/shapes up to 6 (matrices up to 3x3 quick / 6x6 thorough; accessors with every argument up to size+2): the call must panic iff the pair is a mismatch / the argument out of range; after a refusal every operand equals its snapshot (nothing written before the check); by-reference and &self operations leave operands unchanged; owned and borrowed forms return identical results. E2: BFS over interleavings of mutations on a value and its clone (and re-cloning either way) for Vector, Matrix, Banded, Tridiagonal, Polynomial, with independent models. Non-trivial: mismatched pairs, out-of-range arguments. The raw (i,j) index operators of Matrix, Banded and Mesh2D are excluded as the property states.");
     ctx.assume("0x0 systems are not passed to the dense solvers (n >= 1 in C01)");
     ctx.require(&["mismatched or out-of-range calls", "conforming calls", "mutation of the original", "mutation of the clone", "owned/borrowed pair on signed-zero data", "state where original and clone differ"]);
-    let nm = ctx.pick(3, 4);
+    let nm = ctx.pick(3, 6);
     let groups: Vec<(&str, Box<dyn Fn(&mut Vec<(String, String)>) + Sync>)> = vec![
         ("Vector", Box::new(vector_entries)),
         ("Matrix", Box::new(move |o| matrix_entries(o, nm))),
